@@ -9,13 +9,18 @@
    the big-step semantics over names (T1) are stated in Spec/Syntax.v, Model/Compile.v, Spec/AstSem.v and
    are PROVED: C01_language below says that for every accepted source text the run of the compiled program gives
    the result, output, blocks, binding and warnings of the big-step semantics applied to the tree the grammar
-   assigns to the text (or stops at one of the two implementation limits). *)
+   assigns to the text (or stops at one of the two implementation limits).  The limits are
+   characterised on the tree (Proofs/Limits.v): `need_prog p` is the number of operand slots the program needs (live
+   variables plus the temporaries of its deepest expression, computed structurally), `nest_prog p` its block nesting;
+   within 1024 slots and 16 blocks the agreement is EXACT (C01_language_within_limits, no escape clause), and a limit
+   error can only occur when the tree exceeds that limit (C01_language_characterised). *)
 From Coq Require Import ZArith.
 From RecordUpdate Require Import RecordSet.
 Import RecordSetNotations.
 From BCL Require Import Model.Vm Spec.Sem Proofs.VmSpecProofs.
 Open Scope N_scope.
 From BCL Require Import Model.Api Model.Compile Spec.Syntax Spec.AstSem Proofs.ParserInvProofs Proofs.T2Expr Proofs.T2Proofs Proofs.T1Expr Proofs.T1Proofs Proofs.Language.
+From BCL Require Import Proofs.VerifyFrag Proofs.CompileVerifies Proofs.Limits.
 
 (* every binary operator on every pair of operand values: the VM computes Sem.binop *)
 Theorem C01_binop_spec : forall p instr o a b stk m,
@@ -91,6 +96,44 @@ Theorem C01_language_acceptance : forall name src,
   (exists p, ast_program ts = Some p /\ hadError (compile_program p) = false).
 Proof. first [exact Language.bcl_accepts_iff | apply Language.bcl_accepts_iff]. Qed.
 Print Assumptions C01_language_acceptance.
+
+Theorem C01_language_within_limits : forall name src,
+  let pr := parse_whole name src in
+  let ts := fst (lex [src]) in
+  pr_ok pr = true -> pr_oof pr = false -> pr_panic pr = false ->
+  ps_constants (pr_stats pr) < 2^64 ->
+  exists p, ast_program ts = Some p /\
+    (within_limits p ->
+     let rr := execute (pr_prog pr) false false in
+     res_match (fst (run_program p)) (rr_res rr) /\ obs_match (snd (run_program p)) rr).
+Proof. first [exact Limits.bcl_language_within_limits | apply Limits.bcl_language_within_limits]. Qed.
+Print Assumptions C01_language_within_limits.
+
+Theorem C01_language_characterised : forall name src,
+  let pr := parse_whole name src in
+  let ts := fst (lex [src]) in
+  pr_ok pr = true -> pr_oof pr = false -> pr_panic pr = false ->
+  ps_constants (pr_stats pr) < 2^64 ->
+  exists p, ast_program ts = Some p /\
+    let rr := execute (pr_prog pr) false false in
+    (overflow_res (rr_res rr) /\ 1024 < need_prog p) \/
+    (nesting_res (rr_res rr) /\ 16 < nest_prog p) \/
+    (res_match (fst (run_program p)) (rr_res rr) /\ obs_match (snd (run_program p)) rr).
+Proof. first [exact Limits.bcl_language_characterised | apply Limits.bcl_language_characterised]. Qed.
+Print Assumptions C01_language_characterised.
+
+Theorem C01_tree_exact_within_limits : forall (p : list stmt) (name : bytes) (pos lfs : list N),
+  let cs := compile_program p in
+  hadError cs = false ->
+  Forall binds_ok p ->
+  nconsts cs < 2^64 ->
+  need_prog p <= 1024 ->
+  nest_prog p <= 16 ->
+  let g := {| g_name := name; g_code := rev (code cs); g_consts := rev (consts cs); g_pos := pos; g_lfs := lfs |} in
+  let rr := execute g false false in
+  res_match (fst (run_program p)) (rr_res rr) /\ obs_match (snd (run_program p)) rr.
+Proof. first [exact Limits.T1_exact_within_limits | apply Limits.T1_exact_within_limits]. Qed.
+Print Assumptions C01_tree_exact_within_limits.
 
 (* non-vacuity: a program mixing all operator levels and all value kinds *)
 From BCL Require Import Model.Api.
